@@ -46,8 +46,8 @@ TIE = ("D: real patching.patch_obj / application.apply against the stateful fake
 LEVEL_TEXT = (
     "Lean theorems for ALL patch contents (well-formed field dicts x fn lists), with/without a status subresource, all "
     "foreign writes (edit / finalizer edit / delete / delete-and-recreate) before any of the four requests and all 404/422 "
-    "injections: merge_delivered, routed_by_subresource, merge_complete (+ status_null_dropped_witness: `status: null` is "
-    "dropped under a subresource, finding C08-F1), fns_atomic, conflict_keeps_all_fns, remaining_only_after_refusal, "
+    "injections: merge_delivered, routed_by_subresource, merge_complete and status_removal_delivered (`status: null` reaches "
+    "/status like any status patch; the model follows the repair of C08-F1, commit 3352e7b), fns_atomic, conflict_keeps_all_fns, remaining_only_after_refusal, "
     "block_idem / allow_idem / foreign_finalizers_untouched, carry_forward (exactly one application to the then-fresh state) "
     "and carry_forward_not_repeated, reapply_membership (+ reapply_order_witness: re-application after a status-JSON conflict "
     "can permute a mixed fn list), silent_404, raised_only_on_merge_422, same_object_partial (no recreate under the name "
@@ -57,7 +57,7 @@ LEVEL_TEXT = (
     "F5 (stale allow_deletion carried after a 422) is NOT a C08 violation: the property prescribes exactly that the "
     "transformation is carried and re-applied to a fresh state; whether it is still wanted is C06's clause.")
 THEOREMS = [("Kopf.Props.C08", "Kopf.C08." + n) for n in [
-    "merge_delivered", "routed_by_subresource", "merge_complete", "status_null_dropped_witness",
+    "merge_delivered", "routed_by_subresource", "merge_complete", "status_removal_delivered",
     "fns_atomic", "conflict_keeps_all_fns", "remaining_only_after_refusal",
     "block_idem", "allow_idem", "foreign_finalizers_untouched",
     "carry_forward", "carry_forward_not_repeated", "reapply_membership", "reapply_order_witness",
